@@ -399,8 +399,88 @@ func checkLexemes(c *Ctx, f *FC) {
 			}
 		}
 	}
-	for _, cl := range sw.Body.List {
+	// cases first, the default clause last (it is taken only when no case matches, wherever it is written)
+	ordered := append([]ast.Stmt{}, sw.Body.List...)
+	sort.SliceStable(ordered, func(i, j int) bool {
+		return len(ordered[i].(*ast.CaseClause).List) > 0 && len(ordered[j].(*ast.CaseClause).List) == 0
+	})
+	for _, cl := range ordered {
 		cc := cl.(*ast.CaseClause)
+		if len(cc.List) == 0 {
+			// default: a lookup table of one-character tokens — `if tt, ok := TABLE[b]; ok { return newOneCharToken(tt, pos, b) }`
+			// with TABLE a package-level map literal from byte constants to token constructors (read-only; C07.e2)
+			for _, st := range cc.Body {
+				is, ok := st.(*ast.IfStmt)
+				if !ok || is.Init == nil {
+					continue
+				}
+				as, ok := is.Init.(*ast.AssignStmt)
+				if !ok || len(as.Rhs) != 1 || len(as.Lhs) != 2 {
+					continue
+				}
+				ix, ok := as.Rhs[0].(*ast.IndexExpr)
+				if !ok {
+					continue
+				}
+				tid, ok := ix.X.(*ast.Ident)
+				if !ok {
+					continue
+				}
+				tv, ok := info.Uses[tid].(*types.Var)
+				if !ok || tv.Parent() != f.M.Main().Types.Scope() {
+					continue
+				}
+				// the body returns newOneCharToken(<looked-up>, …)
+				returnsIt := false
+				for _, b := range is.Body.List {
+					if rs, ok := b.(*ast.ReturnStmt); ok && len(rs.Results) == 1 {
+						if call, ok := rs.Results[0].(*ast.CallExpr); ok && calleeName(call) == "newOneCharToken" && len(call.Args) == 3 {
+							if a0, ok := call.Args[0].(*ast.Ident); ok {
+								if l0, ok := as.Lhs[0].(*ast.Ident); ok && info.Uses[a0] == info.Defs[l0] {
+									returnsIt = true
+								}
+							}
+						}
+					}
+				}
+				if !returnsIt {
+					continue
+				}
+				// the table's literal
+				for _, file := range f.M.Main().Syntax {
+					for _, d := range file.Decls {
+						gd, ok := d.(*ast.GenDecl)
+						if !ok {
+							continue
+						}
+						for _, sp := range gd.Specs {
+							vs, ok := sp.(*ast.ValueSpec)
+							if !ok {
+								continue
+							}
+							for i, nm := range vs.Names {
+								if info.Defs[nm] != tv || i >= len(vs.Values) {
+									continue
+								}
+								if cl, ok := vs.Values[i].(*ast.CompositeLit); ok {
+									for _, el := range cl.Elts {
+										if kv, ok := el.(*ast.KeyValueExpr); ok {
+											if ch, ok := charConst(kv.Key); ok {
+												if _, dup := lex[string([]byte{ch})]; !dup {
+													lex[string([]byte{ch})] = tokName(kv.Value)
+													lexPos[string([]byte{ch})] = c.Pos(f.M.Fset, kv.Pos())
+												}
+											}
+										}
+									}
+								}
+							}
+						}
+					}
+				}
+			}
+			continue
+		}
 		if len(cc.List) != 1 {
 			continue
 		}
